@@ -91,9 +91,22 @@ def derive(case: dict) -> dict:
         I = [[F(int(i == j)) for j in range(n)] for i in range(n)]
         return {"A": [[0.0] * n for _ in range(n)], "b": [float(x) for x in bb], "C": I, "d": [100 * x for x in bb],
                 "y0": [F(y) for y in case["y0"]], "xs": None, "tol": tol}
-    if kind == "grow":  # dx/dt = +ln2/100 x: doubles every step
-        return {"A": [[LN2_100]], "b": [0.0], "C": [[F(2)]], "d": [F(0)], "y0": [F(y) for y in case["y0"]],
+    if kind == "grow":  # dx/dt = +g ln2/100 x: grows by 2^g every step (g = 8, 16: overflows within the budget)
+        g = case.get("g", 1)
+        return {"A": [[g * LN2_100]], "b": [0.0], "C": [[F(2 ** g)]], "d": [F(0)], "y0": [F(y) for y in case["y0"]],
                 "xs": None, "tol": tol}
+    if kind == "blowup":
+        # dx/dt = x^2 on the first variable (x(t) = x0 / (1 - x0 t): finite-time blow-up at 1/x0), the others relax to
+        # zs with factor 2^-m per step.  Exact rational flow until the singularity; then the solver must give up.
+        ms, zs = case["ms"], [fr(z) for z in case["zs"]]
+        n = 1 + len(ms)
+        A = [[0.0] * n for _ in range(n)]
+        b = [0.0] * n
+        for i, (m, z) in enumerate(zip(ms, zs), start=1):
+            A[i][i] = -LN2_100 * m
+            b[i] = LN2_100 * m * float(z)
+        return {"A": A, "b": b, "C": [[F(1, 2 ** m)] for m in ms], "d": zs, "blow": True,
+                "y0": [fr(case["x0"])] + [fr(z) for z in case["z0"]], "xs": None, "tol": tol}
     if kind == "rotate":  # undamped rotation by atan2(4,3) per step: the norm of the difference never shrinks
         return {"A": [[0.0, -OMEGA], [OMEGA, 0.0]], "b": [0.0, 0.0], "C": [[F(3, 5), F(-4, 5)], [F(4, 5), F(3, 5)]],
                 "d": [F(0), F(0)], "y0": [F(y) for y in case["y0"]], "xs": None, "tol": tol}
@@ -114,6 +127,10 @@ def const_par(p):
     return 0.0 * p
 
 
+def square(x):
+    return x * x
+
+
 def build_model(dv, y0_in_model):
     from mxlpy import Model
     n = len(dv["y0"])
@@ -128,6 +145,8 @@ def build_model(dv, y0_in_model):
     for i in range(n):
         m.add_reaction(f"v{i}", partial(lin_row_shift, dv["A"][i], dv["b0"][i] if "b0" in dv else dv["b"][i], n),
                        args=names + shifts, stoichiometry={names[i]: 1})
+    if dv.get("blow"):
+        m.add_reaction("vblow", square, args=[names[0]], stoichiometry={names[0]: 1})
     return m, names
 
 
@@ -185,6 +204,10 @@ def real_case(case: dict) -> dict:
                 pass
         res = sim.get_result()
         val = res.value
+        if case.get("late_par"):
+            # the user goes on with the simulator / model after taking the result: the result's (lazily computed) fluxes
+            # must still be those of ITS parameters
+            sim.update_parameter("dx0", float(F(case["late_par"])))
         if type(val).__name__ == "Simulation":
             v = val.variables
             fl = val.fluxes
@@ -257,6 +280,14 @@ def flow(dv, y_start):
     """y_start, y(100), y(200), ... on the exact flow (Fractions): closed form for the stable networks (a different
     computation path from the model's iteration), iteration of the affine map for the others"""
     yield list(y_start)
+    if dv.get("blow"):
+        y = list(y_start)
+        while True:
+            if 100 * y[0] >= 1:  # the singularity lies within this step: no state, the solver gives up
+                yield None
+                return
+            y = [y[0] / (1 - 100 * y[0])] + [z + (a - z) * c[0] for a, z, c in zip(y[1:], dv["d"], dv["C"])]
+            yield y
     if dv["xs"] is None:
         y = list(y_start)
         while True:
@@ -280,6 +311,8 @@ def oracle(case, dv, y_start, max_steps=MAX_STEPS):
     prev = next(it)
     for n in range(1, max_steps + 1):
         cur = next(it)
+        if cur is None:
+            return None, ratios, prev, n
         dvv = [b - a for a, b in zip(prev, cur)]
         if case["rel"]:
             if any(a == 0 for a in prev):
@@ -290,9 +323,9 @@ def oracle(case, dv, y_start, max_steps=MAX_STEPS):
         q = norm_sq(dvv) / tol2
         ratios.append(math.sqrt(float(q)) if q < 10 ** 300 else float("inf"))
         if q < 1:
-            return n, ratios, prev
+            return n, ratios, prev, None
         prev = cur
-    return None, ratios, prev
+    return None, ratios, prev, None
 
 
 def bound(case, dv, before):
@@ -321,7 +354,7 @@ def prior_rows(case):
 
 
 def canon_real(case, dv, r, orc):
-    n_exact, ratios, before, t_start = orc
+    n_exact, ratios, before, t_start = orc[:4]
     o = {}
     if case.get("prior"):
         o["start_ok"] = start_ok(case, dv, r)
@@ -357,7 +390,7 @@ def canon_real(case, dv, r, orc):
 
 
 def canon_model(case, dv, m, orc):
-    n_exact, ratios, before, t_start = orc
+    n_exact, ratios, before, t_start = orc[:4]
     loop = m["loop"]
     o = {}
     if case.get("prior"):
@@ -381,10 +414,17 @@ def canon_model(case, dv, m, orc):
 
 
 def spec(case, dv, orc):
-    n_exact, ratios, before, t_start = orc
+    n_exact, ratios, before, t_start = orc[:4]
     o = {}
     if case.get("prior"):
         o["start_ok"] = True
+    if orc[4] is not None and n_exact is None:
+        # the trajectory reaches a singularity within the budget: the solver cannot pass it, the search must end in the
+        # solver's failure — never in a state
+        o.update(outcome="IntegrationFailure", unwrap="IntegrationFailure")
+        if case.get("scan"):
+            o["scan"] = ["nan", "nan"]
+        return o
     if dv["xs"] is None or n_exact is None:
         # a network WITHOUT a steady state must be reported as failure whatever the criterion says; a stable one that
         # does not meet the criterion within the budget likewise
@@ -405,6 +445,8 @@ def model_request(case, dv, r):
     rq = {"op": "c15", "copies": "gen", "C": [[q(x) for x in row] for row in dv["C"]], "d": [q(x) for x in dv["d"]],
           "y0": [q(x) for x in y_start], "orig": [q(x) for x in dv["y0"]], "tol": q(dv["tol"]), "rel": case["rel"],
           "prior": prior_rows(case), "t0": q(t_start)}
+    if dv.get("blow"):
+        rq["blowup"] = True
     if case.get("override"):  # update_variables: a new integrator at shifted time 0, results shifted by the time reached
         rq.update(t0="0", shift=q(t_start))
     return rq
@@ -435,16 +477,25 @@ def gen_case(rng):
         n = rng.choice([1, 2])
         c = {"kind": "accumulate", "b": [rng.choice([1, 2, 5]) for _ in range(n)],
              "y0": [rng.choice([0, 0, 1, 2, 10]) for _ in range(n)]}
-    elif r < 0.92:
-        c = {"kind": "grow", "y0": [rng.choice([1, 2])]}
+    elif r < 0.89:
+        c = {"kind": "grow", "y0": [rng.choice([1, 2])], "g": rng.choice([1, 1, 8, 16])}
+    elif r < 0.93:
+        nz = rng.choice([0, 0, 1])
+        c = {"kind": "blowup", "x0": rng.choice(["1/250", "1/150", "1/350", "1/125", "1", "2", "3/2"]),
+             "ms": rng.sample([1, 2, 3], nz), "zs": [rng.choice(["1", "2"]) for _ in range(nz)],
+             "z0": [rng.choice(["5", "3", "0"]) for _ in range(nz)]}
     else:
         c = {"kind": "rotate", "y0": [rng.choice([3, 4, 10]), rng.choice([1, 4])]}
     if c["kind"] != "stable":
         c.update(tol_exp=rng.randint(3, 9), rel=rng.random() < 0.4, y0mode=rng.choice(["default", "user"]))
     c["scan"] = c["tol_exp"] == 6 and rng.random() < 0.5  # scan.steady_state only offers the default tolerance
     # multi-step use of ONE simulator: results of an earlier call are already stored / a later call follows
+    if c["kind"] == "stable" and rng.random() < 0.25:
+        c["late_par"] = "5"  # a parameter change AFTER the result was taken, before its fluxes are read
     r = rng.random()
-    if r < 0.25:
+    if c["kind"] == "blowup" or c.get("g", 1) > 1:
+        pass  # an earlier run over the singularity / into overflow fails by itself: not this property
+    elif r < 0.25:
         # short and LONG earlier runs (longer than any search needs), optionally a parameter change in between
         c["prior"] = [rng.choice(["simulate", "time_course"]), rng.choice([1, 5, 20, 500, 3000, 20000]), rng.choice([1, 3, 6])]
         c["scan"] = False  # scan.steady_state starts fresh simulators: a different start state
@@ -458,6 +509,14 @@ def gen_case(rng):
 
 
 FIXED = [
+    # F-C15-3: finite-time blow-up (dx/dt = x^2): the solver gives up, its frozen state must not be reported as steady
+    {"kind": "blowup", "x0": "1", "ms": [], "zs": [], "z0": [], "tol_exp": 6, "rel": False, "y0mode": "default", "scan": True},
+    {"kind": "blowup", "x0": "1/250", "ms": [1], "zs": ["1"], "z0": ["5"], "tol_exp": 3, "rel": True, "y0mode": "user",
+     "scan": False},
+    {"kind": "grow", "y0": [1], "g": 16, "tol_exp": 6, "rel": False, "y0mode": "default", "scan": False},
+    # the result's fluxes are read after the user has changed a parameter on the simulator
+    {"kind": "stable", "P": [[1, 0], [1, 1]], "ms": [1, 2], "xstar": ["2", "1"], "z0": ["-2", "1"], "tol_exp": 5,
+     "rel": False, "y0mode": "default", "scan": False, "late_par": "5"},
     # F-C15-2: a variable that accumulates for ever meets the RELATIVE criterion once 100*|b|/|y| < tol: at the first
     # step from a large value, at the very last step of the budget from 200, after an earlier long run
     {"kind": "accumulate", "b": [1], "y0": [100001], "tol_exp": 3, "rel": True, "y0mode": "default", "scan": False},
@@ -487,10 +546,12 @@ FIXED = [
 
 
 def shape_of(case):
-    n = len(case.get("ms") or case.get("b") or case["y0"])
+    n = len(derive(case)["y0"])
     seq = ":after-" + case["prior"][0] if case.get("prior") else (":then-simulate" if case.get("post") else "")
     seq += ":param-change" if case.get("shift") else ""
     seq += ":override" if case.get("override") else ""
+    seq += ":fluxes-after-par-change" if case.get("late_par") else ""
+    seq += f":x{2 ** case['g']}-per-step" if case.get("g", 1) > 1 else ""
     zero = ":from0" if any(F(y) == 0 for y in derive(case)["y0"]) else ""
     return f"{case['kind']}:dim{n}:tol1e-{case['tol_exp']}:{'rel' if case['rel'] else 'abs'}:{case['y0mode']}{zero}{seq}"
 
@@ -500,8 +561,8 @@ def oracle_case(args):
     case, r = args
     dv = derive(case)
     t_start, y_start = start_of(case, dv, r)
-    n_exact, ratios, before = oracle(case, dv, y_start)
-    return n_exact, ratios, before, t_start
+    n_exact, ratios, before, fail_at = oracle(case, dv, y_start)
+    return n_exact, ratios, before, t_start, fail_at
 
 
 def judge_case(ctx, case, r, m, orc):
